@@ -41,7 +41,7 @@ def classify(inst):
 
 
 DETERMINISTIC_OK = {"intrinsic", "alloc", "panic", "arch", "cpu-detect", "fmt", "atomic", "virtual", "ctor"}
-STATIC_OK = re.compile(r"^(num_bigint::|std_detect::|core::|alloc::|std::panicking|std::alloc|std::rt|std::io::stdio|std::sys::|ppv_lite86::|keccak::|cpufeatures::|sha3::|<|memchr::)")
+STATIC_OK = re.compile(r"^(bit_vec::|num_bigint::|std_detect::|core::|alloc::|std::panicking|std::alloc|std::rt|std::io::stdio|std::sys::|ppv_lite86::|keccak::|cpufeatures::|sha3::|<|memchr::)")
 
 
 def cone(prog, roots):
